@@ -86,3 +86,14 @@ Print Assumptions C03_proto_anchors.
 Theorem C03_proto_refuted : forall n, K_C03_proto n = true -> proto_name_ok n = false.
 Proof. exact proto_refuted. Qed.
 Print Assumptions C03_proto_refuted.
+
+From Coq Require Import Lia.
+
+(* non-vacuity of C03_v5_complete / C03_v5_short: the crate's own test vector (count 1, 72 bytes)
+   meets the hypotheses and decodes to one record; cut by one byte it meets those of C03_v5_short *)
+Example C03_example :
+  let x := [x00; x05; x00; x01; x03; x00; x04; x00; x05; x00; x06; x07; x08; x09; x00; x01; x02; x03; x04; x05; x06; x07; x08; x09; x00; x01; x02; x03; x04; x05; x06; x07; x08; x09; x00; x01; x02; x03; x04; x05; x06; x07; x08; x09; x00; x01; x02; x03; x04; x05; x06; x07; x08; x09; x00; x01; x02; x03; x04; x05; x06; x07; x08; x09; x00; x01; x02; x03; x04; x05; x06; x07] in
+  allow_list default_allowed 5 = true /\ firstn 2 x = enc 2 5 /\ (24 + N.to_nat (be (slice x 2 2)) * 48 <= length x)%nat
+  /\ (exists p, parse_one true (allow_list default_allowed) empty_state x = StOk (PV5 p) [] empty_state /\ length (fx_records p) = 1%nat)
+  /\ (length (removelast x) < 24 + N.to_nat (be (slice (removelast x) 2 2)) * 48)%nat.
+Proof. vm_compute. repeat split; try reflexivity; try lia. eexists. split; reflexivity. Qed.
